@@ -187,6 +187,26 @@ func c13CheckGuards(c *Ctx, ro *c13Roles, rule string, specs []GuardSpec) {
 				}
 				return st
 			},
+			RangeFunc: func(x *C13Ctx, call ssa.CallInstruction, ctor *ssa.Call, yield *ssa.Function, st uint64) uint64 {
+				// the iteration itself (not the construction of the iterator) reads the table
+				for _, a := range ctor.Call.Args {
+					id, ok := c13FieldOf(x, a)
+					if !ok || byField[id] == nil {
+						continue
+					}
+					ai := extra[call]
+					if ai == nil {
+						ai = &accInfo{a: Access{Fn: call.Parent(), Instr: call, ID: id, Kind: AccRead, What: "iteration through " + callDesc(ctor)}, need: ModeR}
+						extra[call] = ai
+					}
+					m := modeOf(st, byField[id].Lock)
+					if !xseen[ai] || m < xmode[ai] {
+						xmode[ai] = m
+					}
+					xseen[ai] = true
+				}
+				return st
+			},
 			Opaque: func(fn *ssa.Function) bool {
 				return fn.Signature.Recv() != nil && ro.isLockType(fn.Signature.Recv().Type())
 			},
@@ -292,6 +312,9 @@ func c13IsEntry(p *Prog, e *LockEngine, fn *ssa.Function) bool {
 			return true
 		}
 	}
+	if fn.Synthetic == "range-over-func yield" {
+		return false // the body of a range-over-func loop runs where the loop stands
+	}
 	entry := false
 	var check func(user ssa.Instruction, v ssa.Value)
 	check = func(user ssa.Instruction, v ssa.Value) {
@@ -334,6 +357,37 @@ func c13IsEntry(p *Prog, e *LockEngine, fn *ssa.Function) bool {
 		case *ssa.ChangeType:
 			for _, r := range refs(u) {
 				check(r, u)
+			}
+		case *ssa.Return:
+			// returned to the callers (an iterator, a deferred-cleanup function):
+			// fine when every caller in the module only calls the result
+			par := u.Parent()
+			sites := c13CallSites(p)[origin(par)]
+			if len(sites) == 0 || isExportedFunc(par) {
+				entry = true
+				return
+			}
+			for _, site := range sites {
+				cv, ok := site.(*ssa.Call)
+				if !ok {
+					entry = true
+					return
+				}
+				for _, r := range refs(cv) {
+					switch w := r.(type) {
+					case *ssa.Call:
+						if w.Call.Value != ssa.Value(cv) {
+							entry = true
+						}
+					case *ssa.Defer:
+						if w.Call.Value != ssa.Value(cv) {
+							entry = true
+						}
+					case *ssa.DebugRef:
+					default:
+						entry = true
+					}
+				}
 			}
 		default:
 			entry = true
